@@ -288,6 +288,15 @@ func (x *Unit) oblige(st *State, kind, label string, tags []string, cond Term, s
 	}
 	if kind == "safety" && x.FU.Contract != nil {
 		if why, ok := x.FU.Contract.Unchecked[label]; ok {
+			// the entry is keyed by an ordinal, which moves when a site before it is added or removed: its reason therefore
+			// starts with the source text of the expression it is about, and an entry that now points at another expression
+			// is a generation error, not a silently re-targeted assumption
+			if e, isExpr := node.(ast.Expr); isExpr {
+				squeeze := func(t string) string { return strings.Join(strings.Fields(t), "") }
+				if !strings.HasPrefix(squeeze(why), squeeze(types.ExprString(e))) {
+					x.fail(node, "unchecked %s: the site with this ordinal is now `%s`, but the entry describes `%.60s…` (a site before it was added or removed?)", label, types.ExprString(e), why)
+				}
+			}
 			x.assumedAt = append(x.assumedAt, fmt.Sprintf("%s: safety condition %s (%s) is NOT checked: %s", x.FU.Name, label, src, why))
 			return
 		}
